@@ -66,6 +66,21 @@ def cancelling_parents(g: gen.Gen, bad) -> list:
     return out
 
 
+def wide_parents(g: gen.Gen, bad) -> list:
+    """the offender as one of many operands, at an early, a middle and the last position"""
+    X = gen.X
+    out = []
+    for k in (6, 9, 17):
+        for pos in (0, 4, 5, k // 2, k - 1):
+            for K in (X.Add, X.Multiply):
+                items = [g.expr(0) if i % 3 else X.Constant(float(1 + i % 4)) for i in range(k)]
+                items[pos] = bad
+                out.append(K(*items))
+    zero_first = [X.Constant(0)] + [g.expr(0) for _ in range(6)] + [bad]
+    out.append(X.Multiply(*zero_first))
+    return g.rng.sample(out, 10)
+
+
 def gen_cases(rng, tier: str) -> list[dict]:
     cases = []
     for rnd in range(common.sizes(tier, 6, 40)):
@@ -73,6 +88,7 @@ def gen_cases(rng, tier: str) -> list[dict]:
         for bad in offenders(g):
             exprs = [("offender", bad)] + [("hidden", h) for h in hiding_parents(g, bad)]
             exprs += [("cancelled", h) for h in cancelling_parents(g, bad)]
+            exprs += [("wide", h) for h in wide_parents(g, bad)]
             exprs.append(("wrapped", gen.wrap_random(g, bad, 2)))
             for origin, e in exprs:
                 prior: list[str] = []
